@@ -45,14 +45,14 @@ def generate(ctx):
         yield {"part": "reducer", "kind": kind, "dt": dt, "duration": durk * dt, "inclusive": rng.random() < 0.5,
                "inplace": rng.random() < 0.5, "tc": rng.choice([2.0, 5.0, 20.0, 0.7]),
                "amp": rng.choice([1.0, 0.5, -1.0, 2.5, -0.25]), "scale": rng.choice([1.0, -0.5, 0.0, 2.0]),
-               "obs": rng.choice(["bool", "real"]), "tolerance": rng.choice([None, 0.1]), "target": rng.choice([1.0, 0.0, 2.5]),
+               "obs": rng.choice(["bool", "real"]), "tolerance": rng.choice([None, 0.1, 0.5, 0.25]), "target": rng.choice([1.0, 0.0, 2.5]),
                "initial": rng.choice(["inf", "zero", "nan"]), "alpha": rng.choice([0.0, 0.1, 0.5, 0.9, 1.0]),
                "p": rng.choice([0.1, 0.3, 0.6, 1.0, 0.0]), "shape": list(rng.choice([(3,), (2, 2), (1,), (2, 1, 2)])),
                "seed": rng.randrange(1 << 30), "ops": ops}
     for _ in range(1500 if th else 40):
         yield {"part": "functional", "dt": rng.choice([1.0, 0.5, 1.3]), "tc": rng.choice([2.0, 5.0, 20.0]),
                "amp": rng.choice([1.0, -0.5, 2.0]), "scale": rng.choice([1.0, -0.5, 2.0]), "target": rng.choice([1.0, 0.0]),
-               "tolerance": rng.choice([None, 0.1]), "p": rng.choice([0.2, 0.5, 1.0]), "T": rng.randint(5, 30),
+               "tolerance": rng.choice([None, 0.1, 0.5, 0.25]), "p": rng.choice([0.2, 0.5, 1.0]), "T": rng.randint(5, 30),
                "shape": [3], "seed": rng.randrange(1 << 30)}
 
 
@@ -204,8 +204,12 @@ def _reducer(ctx, desc):
         else:
             if kind in ("nearest", "cumulative"):
                 tol = desc["tolerance"] or 0.0
-                choices = np.array([desc["target"], desc["target"] + tol / 2, desc["target"] - tol / 2,
-                                    desc["target"] + 2 * tol + 0.3, desc["target"] - 2 * tol - 0.3, desc["target"] + 1.7])
+                choices = [desc["target"], desc["target"] + tol / 2, desc["target"] - tol / 2,
+                           desc["target"] + 2 * tol + 0.3, desc["target"] - 2 * tol - 0.3, desc["target"] + 1.7]
+                if tol in (0.5, 0.25):
+                    # exactly on the documented closed edge |obs - target| == tolerance (dyadic values: no rounding in the difference)
+                    choices += [desc["target"] + tol, desc["target"] - tol]
+                choices = np.array(choices)
                 x = choices[g.integers(0, len(choices), size=shape)]
                 if desc["tolerance"] is None:
                     x = np.where(g.random(shape) < desc["p"], desc["target"], x + 0.37)
@@ -342,7 +346,8 @@ def _functional(ctx, desc):
                 m = x > 0.5
             else:
                 hit = g.random(shape) < desc["p"]
-                x = np.where(hit, target, target + 1.0 + (tol or 0))
+                on = target + (g.integers(-1, 2, size=shape) * tol if tol in (0.5, 0.25) else 0.0)    # centre and both closed edges
+                x = np.where(hit, on, target + 1.0 + (tol or 0))
                 m = hit
             hist.append((x, m))
             try:
